@@ -392,3 +392,54 @@ func TestVerifC40Concurrent(t *testing.T) {
 			x.State(fmt.Sprintf("%v|%v", regs, log))
 		})
 }
+
+// TestVerifC40MsgChan: the package's own channel-backed notifier (NotifierWithMsgChan, 10 slots)
+// with a reader that is slower than the publisher: every message must still arrive, in order.
+func TestVerifC40MsgChan(t *testing.T) {
+	maxDev := mc.Pick(2, 3)
+	mc.Run(t, mc.Config{ID: "C40", Name: "C40-msgchan-slow-reader", MaxDev: maxDev, Params: map[string]interface{}{
+		"messages": "11..13 published by one thread to a NotifierWithMsgChan (buffer 10) while a second thread reads", "preemption_bound": maxDev}},
+		func(x *mc.X) {
+			n := 11 + x.Choose(3)
+			var got []int
+			verdict := vsched.Run(x, vsched.Options{MaxSteps: 5000}, func(s *vsched.S) {
+				sp := NewSubPub()
+				nf := NewNotifierWithMsgChan()
+				_ = sp.Subscribe(nf, "ns", "k", "")
+				s.Quiesce()
+				vsched.Go(func() { // reader: a background thread, it may stay blocked at the end
+					for {
+						v, ok := vsched.Recv2(nf.MsgChan)
+						if !ok {
+							return
+						}
+						got = append(got, v.(int))
+					}
+				})
+				s.Go("publisher", func() {
+					for i := 1; i <= n; i++ {
+						_ = sp.Publish("ns", "k", "", i)
+					}
+				})
+				s.Quiesce()
+				if s.Preemptions() > 0 {
+					x.Nontrivial()
+				}
+			})
+			if verdict != "" {
+				x.Fail("deadlock", "scheduler verdict %s", verdict)
+			}
+			x.Logf("published 1..%d, reader got %v", n, got)
+			if len(got) != n {
+				x.Fail("missed-message", "a subscriber reading from NotifierWithMsgChan got %d of %d messages: %v", len(got), n, got)
+			}
+			for i, v := range got {
+				if v != i+1 {
+					x.Fail("out-of-publication-order", "message %d arrived at position %d: %v", v, i, got)
+				}
+			}
+			x.Nontrivial()
+			x.Outcome(fmt.Sprint(n))
+			x.State(fmt.Sprint(got))
+		})
+}
